@@ -27,6 +27,7 @@ int main(int argc, char** argv) {
     maxw = atoi(argv[3]); maxt = atoi(argv[4]); nops = atoi(argv[5]);
   } else {
     vt::G.replay = true;
+    if (argc > 1 && std::string(argv[1]) == "--lenient") vt::G.strict = false;
     std::string line;
     while (std::getline(std::cin, line)) {
       std::istringstream is(line); vt::Step s; std::string v;
@@ -47,7 +48,8 @@ int main(int argc, char** argv) {
       else if (vt::rnd() % 3 == 0) { op = "pool"; n = vt::rnd() % (maxw + 1); }
       else { op = "dispatch"; n = vt::rnd() % (maxt + 1); }
       done++;
-    } else { op = vt::G.cur.obj; n = vt::G.cur.val; }
+    } else if (vt::G.replay && vt::G.cur.op == "api") { op = vt::G.cur.obj; n = vt::G.cur.val; }
+    else { if (g_d.threadpool) { op = "pool"; n = 0; } else op = "end"; }   // script lost (lenient fallback): wind down
     // scalar state logged with every api event: threadlock flag and stack-mark nesting (must both be 0 here)
     vt::yield_end("api", op.c_str(), n * 100 + (g_d.threadlock ? 10 : 0) + g_depth);
     if (op == "pool") mju_threadpool(&g_d, (int)n);
